@@ -164,10 +164,14 @@ def rule_cwd_taint(ctx, r):
     from .evalhelpers import find_workflow_witness
     ctx.structural_or_witness(r, structural_fw, lambda: find_workflow_witness(ctx), f"{fw.module.relpath}::{fw.qual}", both=True)
     ctxc = idx.cls(f"{CORE}:Context")
-    for prop, want in (("config_dir", "os.path.join(self.working_dir, '.gwf')"), ("logs_dir", "os.path.join(self.config_dir, 'logs')")):
-        m = idx.method(ctxc, prop)
-        rets = [ast.unparse(x.value) for x in walk_no_nested(m.node) if isinstance(x, ast.Return)] if m else []
-        r.check(rets == [want], f"{ctxc.module.relpath}::Context.{prop}", want, f"Context.{prop} is {rets}", ctxc.where)
+    cobj = Obj("ctx", working_dir=tok("PROJ"), **{"__class__": ctxc})
+    for prop, want in (("config_dir", tok("PROJ") + "/.gwf"), ("logs_dir", tok("PROJ") + "/.gwf/logs")):
+        try:
+            got = PureInterp(ctx).eval(ast.parse(f"ctx.{prop}", mode="eval").body, {"ctx": cobj}, idx.repo.module(CORE))
+        except (Raised, Unsupported) as exc:
+            got = f"<{exc}>"
+        r.check(got == want, f"{ctxc.module.relpath}::Context.{prop}", f"Context.{prop} = {want.replace(tok('PROJ'), '<project>')}",
+                f"Context.{prop} evaluates to {got} for a project at <project>; expected {want}", ctxc.where)
     from .evalhelpers import eval_get_spec_hashes, load_path
     sel, gsh = eval_get_spec_hashes(ctx)
     r.check(isinstance(sel.get(True), tuple) and sel[True][1] and str(sel[True][1][0]).startswith(tok("WD") + "/.gwf/"), f"{gsh.module.relpath}::{gsh.qual}",
@@ -342,8 +346,26 @@ def rule_path_domain(ctx, r):
         r.check(ok, f"{tgt.module.relpath}::Target.{fld}", "validated by _validate_path", f"Target.{fld} is not validated when the target is defined", tgt.where)
     vp = idx.func(f"{CORE}:_validate_path")
     t = ast.unparse(vp.node)
-    r.check("for path in _flatten(value)" in t and "_check_path(path)" in t, f"{vp.module.relpath}::{vp.qual}", "every flattened element is checked",
-            "_validate_path does not check every flattened path", vp.where)
+    interp_v = PureInterp(ctx)
+    verdicts = {}
+    for label, value, want_ok in (("flat, fine", ["a", "b/c"], True), ("nested, fine", {"k": ["a", ["b"]]}, True), ("empty string in a list", ["a", ""], False),
+                                  ("control character deep in a named group", {"k": ["ok", ["x\ny"]]}, False), ("control character in the last element", ["a", "b", "c\x00"], False),
+                                  ("single string", "fine.txt", True)):
+        try:
+            interp_v.call(vp, (Obj("instance"), Obj("attribute", name="inputs"), value))
+            verdicts[label] = True
+        except Raised as exc:
+            verdicts[label] = False if exc.kind in ("InvalidPathError", "GWFError") else f"raises {exc.kind}"
+        except Unsupported as exc:
+            verdicts[label] = f"<{exc}>"
+    wantv = {"flat, fine": True, "nested, fine": True, "empty string in a list": False, "control character deep in a named group": False,
+             "control character in the last element": False, "single string": True}
+    structural = "for path in _flatten(value)" in t and "_check_path(path)" in t
+    evaluated = verdicts == wantv
+    r.check(evaluated if not any(isinstance(v, str) and v.startswith("<") for v in verdicts.values()) else structural, f"{vp.module.relpath}::{vp.qual}",
+            "every flattened element is checked (6 nested witness values decided as the property says)",
+            f"_validate_path accepts/rejects {{k: v for k, v in verdicts.items() if v != wantv[k]}}: every path of a nested declaration must be checked".replace(
+                "{k: v for k, v in verdicts.items() if v != wantv[k]}", str({k: v for k, v in verdicts.items() if v != wantv[k]})), vp.where)
     wdv = None
     for m in tgt.methods.values():
         if "working_dir.validator" in m.decorator_names():
